@@ -107,6 +107,17 @@ Definition violates_pre (s : api) (c : caller) (k : call) : bool :=
       match c, ph s with FromTask, _ => true | _, NoRt => true | _, _ => false end
   end.
 
+(* the preconditions as DOCUMENTED in init_runtime.hpp: start: "the runtime is not initialized";
+   stop: "initialized, caller not a pika task"; finalize: "initialized"; wait: "initialized";
+   suspend/resume: "caller not a pika task, runtime running or suspended" *)
+Definition documented_pre (s : api) (c : caller) (k : call) : bool :=
+  match k with
+  | CStart _ _ => match ph s with NoRt => true | _ => false end
+  | CSubmit _ | CWait | CFinalize => match ph s with NoRt => false | _ => true end
+  | CSuspend | CResume | CStop =>
+      match c, ph s with FromTask, _ => false | _, NoRt => false | _, _ => true end
+  end.
+
 (* ------------------------------------------------------------------ Part 2: concurrent model *)
 Inductive action := AWork | AYield | ASpawn (p : list action) | AWait | AFinalize.
 Definition prog := list action.
